@@ -238,8 +238,25 @@ def menger(rc: RuleCtx, rule_range: Optional[str], rule_crit: Optional[str]):
                     and va.args[0].is_const() is not None and va.args[0].equals(va.args[2]):
                 pad_ok = True
                 pad = va.args[0]
-    range_ok = isinstance(lo, Rat) and lo.is_const() == 1 and isinstance(hi, Rat) and hi.equals(sym("n") - C(1))
     one_app = len(apps) == 1 and apps[0].guard.kind == "true"
+    # the loop position may be offset from the index of the middle point (zip of shifted slices): re-centre on the middle point
+    delta = C(0)
+    if one_app and isinstance(apps[0].args[0], Rat):
+        a_ = single_atom(apps[0].args[0])
+        if a_ is not None and a_.name == "call:menger.menger_curvature" and len(a_.args) == 3:
+            offs = []
+            for arg in a_.args:
+                va_ = single_atom(arg)
+                if va_ is not None and va_.name == "vec" and len(va_.args) == 2:
+                    xa_ = single_atom(va_.args[0])
+                    if xa_ is not None and xa_.name == "at" and xa_.args[0].equals(pts.items[0]):
+                        d_ = xa_.args[1].sub(i).is_const()
+                        if d_ is not None:
+                            offs.append(d_)
+            if len(offs) == 3 and sorted(offs)[2] - sorted(offs)[0] == 2:
+                delta = C(sorted(offs)[1])
+    range_ok = isinstance(lo, Rat) and isinstance(hi, Rat) and (lo + delta).is_const() == 1 and (hi + delta).equals(sym("n") - C(1))
+    i = i + delta
     if rule_range:
         if pad_ok and range_ok and one_app and ret_ok:
             res.ok(rule_range, "menger.knee", "argmax over [pad] + n-2 interior values + [same pad]: the first maximum is never the last index => index in [0, n-2]")
@@ -333,7 +350,12 @@ def lmethod(rc: RuleCtx, rule_range: Optional[str], rule_crit: Optional[str], ru
         and fr2.returns[0][1].items[0].equals(sym(iname))
     # initial error is the error at index 2
     err0 = env.get(ename) if ename else None
-    init_ok = isinstance(err0, Rat) and any(a.name == "call:lmethod.compute_error" for a in err0.all_atoms())
+    # ... computed by the very same call as every other candidate (same fit / cost / length), at the start index
+    cur0 = None
+    if isinstance(idx0, Rat):
+        cur0 = anf.opaque("item", anf.opaque("call:lmethod.compute_error", x, y, idx0, length_v, ev.to_rat(env["fit"]), ev.to_rat(env["cost"]), array=True,
+                                             extra=("x", "y", "index", "length", "fit", "cost")), C(0), array=False)
+    init_ok = isinstance(err0, Rat) and cur0 is not None and err0.equals(cur0)
     if rule_range:
         if cand_ok and ret_ok and upd_ok:
             res.ok(rule_range, "lmethod.get_knee", "index starts at 2 and is only replaced by i in range(3, n-2): index in [2, max(2, n-3)] within [0, n-2]")
@@ -344,8 +366,13 @@ def lmethod(rc: RuleCtx, rule_range: Optional[str], rule_crit: Optional[str], ru
         if cand_ok and upd_ok and init_ok and ret_ok:
             res.ok(rule_crit, "lmethod.get_knee", "minimises compute_error over the split candidates 2..n-3 (first minimum; comparator < or <=)")
         else:
-            res.violation(rule_crit, fg.module, fg.name, loop, "the L-method step does not minimise the two-line fitting error over the split candidates 2..n-3",
-                          f"candidates ok={cand_ok}; index' = {_short(idx_new, 120)}", "if current_error < error: error, index = current_error, i", construct="lmethod minimisation")
+            why = ""
+            if cand_ok and upd_ok and ret_ok and not init_ok:
+                why = (": the error of the first candidate is not computed like the error of the others (same x, y, length, fit and cost) - "
+                       "the candidates are not ranked by one criterion")
+            res.violation(rule_crit, fg.module, fg.name, loop, "the L-method step does not minimise the two-line fitting error over the split candidates 2..n-3" + why,
+                          f"candidates ok={cand_ok}; first error = {_short(err0, 160)}; index' = {_short(idx_new, 120)}",
+                          "error(2) = compute_error(x, y, 2, length, fit, cost)[0]; if current_error < error: error, index = current_error, i", construct="lmethod minimisation")
         _lmethod_error(rc, rule_crit)
     _lmethod_knee(rc, rule_range, rule_crit, rule_term)
 
